@@ -47,16 +47,22 @@ var ownerNames = []string{"O1", "O2"}
 
 var denom = sdk.DefaultBondDenom
 
-// ICAWorld is a controller chain A and a host chain B joined by one connection.
+// ICAWorld is a controller chain A and a host chain B.  An owner slot (O1, O2) is a pair (connection, owner account).
+// Ordinary world: one connection, two owner accounts.  Crossed world: ONE owner account (hence one controller port) on two
+// connections whose identifiers are crossed (slot O1: A connection-0 <-> B connection-1, slot O2: A connection-1 <-> B
+// connection-0), so that the controller's and the host's identifier of a connection differ and the identifier one chain
+// uses names the OTHER slot's connection on the other chain.
 type ICAWorld struct {
-	t     *testing.T
-	coord *ibctesting.Coordinator
-	A, B  *ibctesting.TestChain
-	path  *ibctesting.Path
+	t       *testing.T
+	coord   *ibctesting.Coordinator
+	A, B    *ibctesting.TestChain
+	path    *ibctesting.Path            // slot O1's path (also used to address channels that do not exist)
+	paths   map[string]*ibctesting.Path // owner slot -> path
+	crossed bool
+	pktPath map[[2]int]*ibctesting.Path
 
 	acc    map[string]ibctesting.SenderAccount // O1, O2, X on A
-	port   map[string]string                   // owner -> controller port id
-	owner  map[string]string                   // controller port id -> owner
+	port   map[string]string                   // owner slot -> controller port id
 	other  sdk.AccAddress
 	dest   sdk.AccAddress
 	peerNo sdk.AccAddress
@@ -156,23 +162,55 @@ func learnNoise(chain *ibctesting.TestChain) *Noise {
 	return n
 }
 
-func NewICAWorld(t *testing.T) *ICAWorld {
+func must(t *testing.T, err error) {
+	if err != nil {
+		t.Fatalf("world set-up: %v", err)
+	}
+}
+
+func NewICAWorld(t *testing.T, crossed bool) *ICAWorld {
 	ibctesting.TimeIncrement = time.Millisecond
-	w := &ICAWorld{t: t, acc: map[string]ibctesting.SenderAccount{}, port: map[string]string{}, owner: map[string]string{},
+	w := &ICAWorld{t: t, acc: map[string]ibctesting.SenderAccount{}, port: map[string]string{}, crossed: crossed,
+		paths: map[string]*ibctesting.Path{}, pktPath: map[[2]int]*ibctesting.Path{},
 		pkts: map[[2]int]channeltypes.Packet{}, ackKind: map[[2]int]string{}, addrName: map[string]string{}, nameAddr: map[string]string{},
 		noise: map[string]*Noise{}}
 	w.coord = ibctesting.NewCoordinator(t, 2)
 	w.A = w.coord.GetChain(ibctesting.GetChainID(1))
 	w.B = w.coord.GetChain(ibctesting.GetChainID(2))
 	w.path = ibctesting.NewPath(w.A, w.B)
-	w.path.SetupConnections()
+	if !crossed {
+		w.path.SetupConnections()
+		w.paths["O1"], w.paths["O2"] = w.path, w.path
+	} else {
+		p2 := ibctesting.NewPath(w.A, w.B)
+		w.path.SetupClients()
+		p2.SetupClients()
+		must(t, w.path.EndpointA.ConnOpenInit())
+		must(t, p2.EndpointA.ConnOpenInit())
+		must(t, p2.EndpointB.ConnOpenTry())
+		must(t, w.path.EndpointB.ConnOpenTry())
+		must(t, w.path.EndpointA.ConnOpenAck())
+		must(t, p2.EndpointA.ConnOpenAck())
+		must(t, w.path.EndpointB.ConnOpenConfirm())
+		must(t, p2.EndpointB.ConnOpenConfirm())
+		must(t, w.path.EndpointA.UpdateClient())
+		must(t, p2.EndpointA.UpdateClient())
+		w.paths["O1"], w.paths["O2"] = w.path, p2
+		if w.path.EndpointA.ConnectionID != p2.EndpointB.ConnectionID || w.path.EndpointB.ConnectionID != p2.EndpointA.ConnectionID ||
+			w.path.EndpointA.ConnectionID == w.path.EndpointB.ConnectionID {
+			t.Fatalf("connection identifiers are not crossed: %s/%s %s/%s", w.path.EndpointA.ConnectionID, w.path.EndpointB.ConnectionID,
+				p2.EndpointA.ConnectionID, p2.EndpointB.ConnectionID)
+		}
+	}
 	for i, n := range []string{"O1", "O2", "X"} {
 		w.acc[n] = w.A.SenderAccounts[i+1]
-		if n != "X" {
-			p, _ := icatypes.NewControllerPortID(w.acc[n].SenderAccount.GetAddress().String())
-			w.port[n] = p
-			w.owner[p] = n
-		}
+	}
+	if crossed {
+		w.acc["O2"] = w.acc["O1"] // one owner account, two connections
+	}
+	for _, n := range ownerNames {
+		p, _ := icatypes.NewControllerPortID(w.acc[n].SenderAccount.GetAddress().String())
+		w.port[n] = p
 	}
 	w.other = w.B.SenderAccounts[1].SenderAccount.GetAddress()
 	w.dest = sdk.AccAddress([]byte("verif-dest-account--"))
@@ -212,6 +250,12 @@ func allowList(a string) []string {
 		return []string{send, del}
 	case "starplus":
 		return []string{"*", send}
+	case "nearmiss":
+		// no entry equals a type URL in use: proper prefixes, package patterns, extensions, case variants
+		wd := sdk.MsgTypeURL(&distrtypes.MsgSetWithdrawAddress{})
+		pkg := func(u string) string { return u[:strings.LastIndex(u, ".")+1] }
+		return []string{send[:len(send)-1], pkg(send), pkg(send) + "*", send + "2", strings.ToLower(send), "/cosmos.*", "/",
+			del[:len(del)-3], pkg(del) + "*", del + "Response", wd[:len(wd)-7], pkg(wd) + "*", wd + "_", "/*", "**"}
 	}
 	return []string{}
 }
@@ -221,8 +265,64 @@ func (w *ICAWorld) setAllow(a string) {
 	w.allow = a
 }
 
-func (w *ICAWorld) connA() string { return w.path.EndpointA.ConnectionID }
-func (w *ICAWorld) connB() string { return w.path.EndpointB.ConnectionID }
+func (w *ICAWorld) connA(o string) string { return w.pathOf(o).EndpointA.ConnectionID }
+func (w *ICAWorld) connB(o string) string { return w.pathOf(o).EndpointB.ConnectionID }
+
+func (w *ICAWorld) pathOf(o string) *ibctesting.Path {
+	if p, ok := w.paths[o]; ok {
+		return p
+	}
+	return w.path
+}
+
+func connOf(p *ibctesting.Path, onA bool) string {
+	if onA {
+		return p.EndpointA.ConnectionID
+	}
+	return p.EndpointB.ConnectionID
+}
+
+// slotOf returns the owner slot of (controller port, connection identifier on chain A / B).
+func (w *ICAWorld) slotOf(port, conn string, onA bool) (string, bool) {
+	for _, o := range ownerNames {
+		if w.port[o] == port && connOf(w.paths[o], onA) == conn {
+			return o, true
+		}
+	}
+	return "", false
+}
+
+// pathOfConn returns the path of a connection identifier of chain A / B.
+func (w *ICAWorld) pathOfConn(conn string, onA bool) *ibctesting.Path {
+	for _, o := range ownerNames {
+		if connOf(w.paths[o], onA) == conn {
+			return w.paths[o]
+		}
+	}
+	return w.path
+}
+
+// pathOfChan returns the path of the connection a channel end (by channel id) of chain A / B runs over.
+func (w *ICAWorld) pathOfChan(id string, onA bool) *ibctesting.Path {
+	chain := w.B
+	if onA {
+		chain = w.A
+	}
+	for _, c := range chain.App.GetIBCKeeper().ChannelKeeper.GetAllChannels(chain.GetContext()) {
+		if c.ChannelId == id && len(c.ConnectionHops) > 0 {
+			return w.pathOfConn(c.ConnectionHops[0], onA)
+		}
+	}
+	return w.path
+}
+
+// pathOfPkt returns the path a recorded packet was sent over.
+func (w *ICAWorld) pathOfPkt(ca, seq int) *ibctesting.Path {
+	if p, ok := w.pktPath[[2]int{ca, seq}]; ok {
+		return p
+	}
+	return w.path
+}
 
 func chanA(n int) string { return channeltypes.FormatChannelIdentifier(uint64(n)) }
 func chanB(n int) string { return channeltypes.FormatChannelIdentifier(uint64(n + bOffset)) }
@@ -242,14 +342,18 @@ func orderOf(o string) channeltypes.Order {
 	return channeltypes.UNORDERED
 }
 
-func (w *ICAWorld) version(enc string) string {
-	md := icatypes.NewMetadata(icatypes.Version, w.connA(), w.connB(), "", enc, icatypes.TxTypeSDKMultiMsg)
+// version returns the version string an initialising message of slot o carries; "default" = the empty string.
+func (w *ICAWorld) version(o, enc string) string {
+	if enc == "default" {
+		return ""
+	}
+	md := icatypes.NewMetadata(icatypes.Version, w.connA(o), w.connB(o), "", enc, icatypes.TxTypeSDKMultiMsg)
 	return string(icatypes.ModuleCdc.MustMarshalJSON(&md))
 }
 
 // hostAddr returns the interchain account registered on the host for an owner ("" if none).
 func (w *ICAWorld) hostAddr(o string) string {
-	a, _ := w.B.GetSimApp().ICAHostKeeper.GetInterchainAccountAddress(w.B.GetContext(), w.connB(), w.port[o])
+	a, _ := w.B.GetSimApp().ICAHostKeeper.GetInterchainAccountAddress(w.B.GetContext(), w.connB(o), w.port[o])
 	return a
 }
 
@@ -292,7 +396,7 @@ func (w *ICAWorld) concrete(m Msg, owner string) proto.Message {
 // activeEnc returns the encoding of the owner's active channel on the controller (default proto3).
 func (w *ICAWorld) activeEnc(o string) string {
 	k := w.A.GetSimApp().ICAControllerKeeper
-	if id, ok := k.GetActiveChannelID(w.A.GetContext(), w.connA(), w.port[o]); ok {
+	if id, ok := k.GetActiveChannelID(w.A.GetContext(), w.connA(o), w.port[o]); ok {
 		if v, ok := k.GetAppVersion(w.A.GetContext(), w.port[o], id); ok {
 			if md, err := icatypes.MetadataFromVersion(v); err == nil && md.Encoding != "" {
 				return md.Encoding
@@ -335,34 +439,35 @@ func (w *ICAWorld) Exec(a Action) (res, ack, errStr string, diff []string) {
 		return "ok", ack, "", []string{}
 	case "Register":
 		chain, cname, signer = w.A, "A", w.acc[a.Signer]
-		msg = icacontrollertypes.NewMsgRegisterInterchainAccount(w.connA(), addr(w.acc[a.Owner]), w.version(a.Enc), orderOf(a.Order))
+		msg = icacontrollertypes.NewMsgRegisterInterchainAccount(w.connA(a.Owner), addr(w.acc[a.Owner]), w.version(a.Owner, a.Enc), orderOf(a.Order))
 	case "OpenInit":
 		chain, cname, signer = w.A, "A", w.acc[a.Signer]
 		cp := icatypes.HostPortID
 		if a.CpPort != "icahost" {
 			cp = otherCpPort
 		}
-		msg = channeltypes.NewMsgChannelOpenInit(w.port[a.Owner], w.version(a.Enc), orderOf(a.Order), []string{w.connA()}, cp, addr(signer))
+		msg = channeltypes.NewMsgChannelOpenInit(w.port[a.Owner], w.version(a.Owner, a.Enc), orderOf(a.Order), []string{w.connA(a.Owner)}, cp, addr(signer))
 	case "InitOnHost":
 		chain, cname, signer = w.B, "B", relB
-		msg = channeltypes.NewMsgChannelOpenInit(icatypes.HostPortID, w.version(a.Enc), orderOf(a.Order), []string{w.connB()}, w.port[a.Owner], addr(signer))
+		msg = channeltypes.NewMsgChannelOpenInit(icatypes.HostPortID, w.version(a.Owner, a.Enc), orderOf(a.Order), []string{w.connB(a.Owner)}, w.port[a.Owner], addr(signer))
 	case "ForeignInit":
 		chain, cname, signer = w.B, "B", relB
-		msg = channeltypes.NewMsgChannelOpenInit(mockPort, ibcmock.Version, channeltypes.UNORDERED, []string{w.connB()}, w.port[a.Owner], addr(signer))
+		msg = channeltypes.NewMsgChannelOpenInit(mockPort, ibcmock.Version, channeltypes.UNORDERED, []string{w.connB(a.Owner)}, w.port[a.Owner], addr(signer))
 	case "TryOnController":
 		chain, cname, signer = w.A, "A", relA
-		if !upd(w.path.EndpointA) {
+		if !upd(w.pathOf(a.Owner).EndpointA) {
 			return "err", ack, errStr, []string{}
 		}
 		proof, h := w.proofOn(w.B, host.ChannelKey(mockPort, chanB(ip(a.Cb))))
-		msg = channeltypes.NewMsgChannelOpenTry(w.port[a.Owner], ibcmock.Version, channeltypes.UNORDERED, []string{w.connA()},
+		msg = channeltypes.NewMsgChannelOpenTry(w.port[a.Owner], ibcmock.Version, channeltypes.UNORDERED, []string{w.connA(a.Owner)},
 			mockPort, chanB(ip(a.Cb)), ibcmock.Version, proof, h, addr(signer))
 	case "Try":
 		chain, cname, signer = w.B, "B", relB
-		if !upd(w.path.EndpointB) {
+		ca := chanA(ip(a.Ca))
+		pth := w.pathOfChan(ca, true)
+		if !upd(pth.EndpointB) {
 			return "err", ack, errStr, []string{}
 		}
-		ca := chanA(ip(a.Ca))
 		port, order, ver := w.port["O1"], channeltypes.UNORDERED, ""
 		for _, c := range w.A.App.GetIBCKeeper().ChannelKeeper.GetAllChannels(w.A.GetContext()) {
 			if c.ChannelId == ca {
@@ -370,14 +475,14 @@ func (w *ICAWorld) Exec(a Action) (res, ack, errStr string, diff []string) {
 			}
 		}
 		proof, h := w.proofOn(w.A, host.ChannelKey(port, ca))
-		msg = channeltypes.NewMsgChannelOpenTry(icatypes.HostPortID, "", order, []string{w.connB()}, port, ca, ver, proof, h, addr(signer))
+		msg = channeltypes.NewMsgChannelOpenTry(icatypes.HostPortID, "", order, []string{pth.EndpointB.ConnectionID}, port, ca, ver, proof, h, addr(signer))
 		after = func(*abci.ExecTxResult) { w.fundNew() }
 	case "Ack":
 		chain, cname, signer = w.A, "A", relA
-		if !upd(w.path.EndpointA) {
+		ca, cb := chanA(ip(a.Ca)), chanB(ip(a.Cb))
+		if !upd(w.pathOfChan(ca, true).EndpointA) {
 			return "err", ack, errStr, []string{}
 		}
-		ca, cb := chanA(ip(a.Ca)), chanB(ip(a.Cb))
 		portA, portB, ver := w.port["O1"], icatypes.HostPortID, ""
 		for _, c := range w.A.App.GetIBCKeeper().ChannelKeeper.GetAllChannels(w.A.GetContext()) {
 			if c.ChannelId == ca {
@@ -393,10 +498,10 @@ func (w *ICAWorld) Exec(a Action) (res, ack, errStr string, diff []string) {
 		msg = channeltypes.NewMsgChannelOpenAck(portA, ca, cb, ver, proof, h, addr(signer))
 	case "Confirm", "CloseConfirm":
 		chain, cname, signer = w.B, "B", relB
-		if !upd(w.path.EndpointB) {
+		cb := chanB(ip(a.Cb))
+		if !upd(w.pathOfChan(cb, false).EndpointB) {
 			return "err", ack, errStr, []string{}
 		}
-		cb := chanB(ip(a.Cb))
 		portB, portA, ca := icatypes.HostPortID, w.port["O1"], chanA(0)
 		for _, c := range w.B.App.GetIBCKeeper().ChannelKeeper.GetAllChannels(w.B.GetContext()) {
 			if c.ChannelId == cb {
@@ -424,13 +529,15 @@ func (w *ICAWorld) Exec(a Action) (res, ack, errStr string, diff []string) {
 			rel = shortRel
 		}
 		pd := icatypes.InterchainAccountPacketData{Type: icatypes.EXECUTE_TX, Data: data}
-		msg = icacontrollertypes.NewMsgSendTx(addr(w.acc[a.Owner]), w.connA(), uint64(rel.Nanoseconds()), pd)
+		msg = icacontrollertypes.NewMsgSendTx(addr(w.acc[a.Owner]), w.connA(a.Owner), uint64(rel.Nanoseconds()), pd)
+		sendPath := w.pathOf(a.Owner)
 		after = func(r *abci.ExecTxResult) {
 			if r == nil || r.Code != 0 {
 				return
 			}
 			if p, err := ibctesting.ParseV1PacketFromEvents(r.Events); err == nil {
 				w.pkts[[2]int{chanNo(p.SourceChannel, 0), int(p.Sequence)}] = p
+				w.pktPath[[2]int{chanNo(p.SourceChannel, 0), int(p.Sequence)}] = sendPath
 			}
 		}
 	case "Recv":
@@ -439,7 +546,7 @@ func (w *ICAWorld) Exec(a Action) (res, ack, errStr string, diff []string) {
 		if !ok {
 			return "err", ack, "unknown packet", []string{}
 		}
-		if !upd(w.path.EndpointB) {
+		if !upd(w.pathOfPkt(ip(a.Ca), ip(a.Seq)).EndpointB) {
 			return "err", ack, errStr, []string{}
 		}
 		proof, h := w.proofOn(w.A, host.PacketCommitmentKey(p.SourcePort, p.SourceChannel, p.Sequence))
@@ -466,7 +573,7 @@ func (w *ICAWorld) Exec(a Action) (res, ack, errStr string, diff []string) {
 		if !ok {
 			return "err", ack, "unknown packet", []string{}
 		}
-		if !upd(w.path.EndpointA) {
+		if !upd(w.pathOfPkt(ip(a.Ca), ip(a.Seq)).EndpointA) {
 			return "err", ack, errStr, []string{}
 		}
 		key := host.PacketReceiptKey(p.DestinationPort, p.DestinationChannel, p.Sequence)
@@ -628,14 +735,14 @@ type ICAState struct {
 	Wd    map[string]bool   `json:"wd"`
 }
 
-func (w *ICAWorld) portClass(p string) (string, string) {
+func (w *ICAWorld) portClass(p, conn string, onA bool) (string, string) {
 	switch {
 	case p == icatypes.HostPortID:
 		return "icahost", "?"
 	case p == mockPort:
 		return "mock", "?"
 	case strings.HasPrefix(p, icatypes.ControllerPortPrefix):
-		if o, ok := w.owner[p]; ok {
+		if o, ok := w.slotOf(p, conn, onA); ok {
 			return "ctrl", o
 		}
 		return "ctrl", "?"
@@ -683,8 +790,12 @@ func (w *ICAWorld) side(chain *ibctesting.TestChain, off int) SideSt {
 			s.Chans = append(s.Chans, ChanSt{St: "NONE", Cp: -1})
 			continue
 		}
-		pc, o1 := w.portClass(c.PortId)
-		cc, o2 := w.portClass(c.Counterparty.PortId)
+		hop := ""
+		if len(c.ConnectionHops) > 0 {
+			hop = c.ConnectionHops[0]
+		}
+		pc, o1 := w.portClass(c.PortId, hop, off == 0)
+		cc, o2 := w.portClass(c.Counterparty.PortId, hop, off == 0)
 		o := o1
 		if o == "?" {
 			o = o2
@@ -734,14 +845,14 @@ func (w *ICAWorld) State() ICAState {
 		st.A.Addr[o], st.B.Addr[o] = "", ""
 	}
 	for _, ac := range ka.GetAllActiveChannels(w.A.GetContext()) {
-		if o, ok := w.owner[ac.PortId]; ok && ac.ConnectionId == w.connA() {
+		if o, ok := w.slotOf(ac.PortId, ac.ConnectionId, true); ok {
 			st.A.Active[o] = chanNo(ac.ChannelId, 0)
 		} else {
 			st.A.XActive++
 		}
 	}
 	for _, ia := range ka.GetAllInterchainAccounts(w.A.GetContext()) {
-		if o, ok := w.owner[ia.PortId]; ok && ia.ConnectionId == w.connA() {
+		if o, ok := w.slotOf(ia.PortId, ia.ConnectionId, true); ok {
 			st.A.Addr[o] = w.nameOf(ia.AccountAddress)
 		} else {
 			st.A.XActive++
@@ -749,14 +860,14 @@ func (w *ICAWorld) State() ICAState {
 	}
 	kb := w.B.GetSimApp().ICAHostKeeper
 	for _, ac := range kb.GetAllActiveChannels(w.B.GetContext()) {
-		if o, ok := w.owner[ac.PortId]; ok && ac.ConnectionId == w.connB() {
+		if o, ok := w.slotOf(ac.PortId, ac.ConnectionId, false); ok {
 			st.B.Active[o] = chanNo(ac.ChannelId, bOffset)
 		} else {
 			st.B.XActive++
 		}
 	}
 	for _, ia := range kb.GetAllInterchainAccounts(w.B.GetContext()) {
-		if o, ok := w.owner[ia.PortId]; ok && ia.ConnectionId == w.connB() {
+		if o, ok := w.slotOf(ia.PortId, ia.ConnectionId, false); ok {
 			st.B.Addr[o] = w.nameOf(ia.AccountAddress)
 		} else {
 			st.B.XActive++
